@@ -17,6 +17,8 @@ pub fn run_case(kind: &str, fields: Vec<String>) -> Vec<String> {
         "imports" => crate::on_fresh_thread(move || imports(&fields)),
         "evalfile" => crate::on_fresh_thread(move || evalfile(&fields)),
         "expand" => crate::on_fresh_thread(move || expand::run(&fields)),
+        // the table of native procedures as registered: library, name, fixed parameter count, variadic flag
+        "builtins" => crate::in_place(builtins),
         _ => vec![format!("X unknown-kind {}", kind)],
     }
 }
@@ -292,4 +294,24 @@ fn display(fields: &[String]) -> Vec<String> {
         Ok(None) => vec!["N".to_string()],
         Err(e) => vec![crate::canon_err(&e)],
     }
+}
+
+/// every definition of `(ruschm base)` and `(ruschm write)`: `lib name fixed variadic`, sorted
+/// (registration order is not observable: the library keeps them in a `HashMap`)
+fn builtins() -> Vec<String> {
+    use ruschm::interpreter::library::native::{base, write};
+    let mut out = vec![];
+    for (lib, map) in vec![("base", base::library_map::<f32>()), ("write", write::library_map::<f32>())] {
+        for (name, v) in map {
+            match v {
+                ruschm::values::Value::Procedure(p) => {
+                    let (fixed, variadic) = p.get_parameters().len();
+                    out.push(format!("{} {} {} {}", lib, crate::esc(&name), fixed, variadic));
+                }
+                _ => out.push(format!("{} {} not-a-procedure", lib, crate::esc(&name))),
+            }
+        }
+    }
+    out.sort();
+    out
 }
